@@ -59,6 +59,8 @@ def _step(state, st: str, out: OutputCollector, ctx: CallContext, inp) -> None:
         ctx.client_log(_level(), f"second log for {state.x}")
     if st in ("raise", "lograise"):
         raise ValueError(f"process boom x={state.x}")
+    if st == "bademit":
+        out.emit_pydict({"v": [2**63 + state.x]})       # a value int64 cannot hold
     if st in ("emit", "logemit", "log2emit", "emitfin"):
         state.nd += 1
         out.emit_pydict({"v": [state.x * 100 + state.nd]})
@@ -94,7 +96,9 @@ def build(methods: list[dict], version_mismatch: bool = False):
         if m["k"] == "unary":
             if m["u"] in ("logok", "lograise"):
                 body += ["        ctx.client_log(LEVEL, f'log1 for {x}')", "        ctx.client_log(LEVEL, f'log2 for {x}')"]
-            if m["u"] in ("raise", "lograise"):
+            if m["u"] == "badresult":
+                body.append("        return 2**63 + x")       # a value the declared int64 result cannot hold
+            elif m["u"] in ("raise", "lograise"):
                 body.append("        raise ValueError(f'unary boom x={x}')")
             else:
                 body.append("        return x")
@@ -105,7 +109,7 @@ def build(methods: list[dict], version_mismatch: bool = False):
                 body.append("        return x")
             else:
                 st = "PState" if m["k"] == "prod" else "XState"
-                hdr = "None" if m["init"] == "hdrnone" else ("Hdr(n=x)" if m["hdr"] else "None")
+                hdr = "None" if m["init"] == "hdrnone" else "Hdr(n=2**63 + x)" if m["init"] == "hdrbad" else ("Hdr(n=x)" if m["hdr"] else "None")
                 inp = "" if m["k"] == "prod" else ", input_schema=INP"
                 body.append(f"        return Stream(output_schema=OUT, state={st}(x=x, steps={list(m['steps'])!r}){inp}, header={hdr})")
         src_i += body
@@ -202,7 +206,8 @@ def run_script(methods_by_name: dict, pair_factory, server_proto, impl, client_p
                             elif e.error_type == "TransportError":
                                 obs.append(["transport_error"])
                             else:
-                                if m["known"] and not m["badp"] and not getattr(client_proto, "protocol_version", None):
+                                if (m["known"] and not m["badp"] and m["u"] != "badresult"      # (OverflowError's text is Python's own)
+                                        and not getattr(client_proto, "protocol_version", None)):
                                     check(e)
                                 obs.append(["err", state["nlogs"]])
                         continue
